@@ -94,13 +94,30 @@ func verifC14Store(kind int) {
 	defer env.close()
 	symR := kind == 0 || kind == 4 || kind == 5 || kind == 7 || kind == 8
 	symRole2 := kind == 1 || kind == 4 || kind == 5 || kind == 7 || kind == 8
-	symLink := kind == 2 || kind == 3 || kind == 9
+	symLink := kind == 2 || kind == 3 || kind == 9 || kind == 10
 	if kind == 7 || kind == 8 {
 		n = 1
 	}
 	// the key cursor sees each role value once however many hold it: "r" is held
 	// by the first emp only, the second values are arbitrary
 	p := verifC14Populate(env, n, symR, symRole2, symLink, kind == 1)
+	if kind == 10 {
+		// the same membership as ref-counted links (count 1 or 2)
+		err := env.update(func(ctx MutateContext) error {
+			for i, id := range p.ids {
+				if !p.linkedX[i] {
+					continue
+				}
+				for k := 0; k <= i%2; k++ {
+					if _, err := env.emp.rcDepts.IncrementLinkCount(ctx.Tx(), id, []byte("x")); err != nil {
+						return err
+					}
+				}
+			}
+			return nil
+		})
+		verifrt.Assert(err == nil, "C14 ref-counted link setup succeeds")
+	}
 	forward := verifrt.Bool("forward")
 	env.view(func(tx *bbolt.Tx) {
 		switch kind {
@@ -186,6 +203,10 @@ func verifC14Store(kind int) {
 			}
 			c := lb.IterateStringListInDirection(forward)
 			verifrt.CursorScript(want, c, forward, steps, 1, "C14 typed bucket string-list cursor")
+		case 10: // ref-counted link collection cursor from the dept side
+			want := p.idsWhere(func(i int) bool { return p.linkedX[i] })
+			c := env.dept.rcMembers.IterateLinks(tx, []byte("x"), forward)
+			verifrt.CursorScript(want, c, forward, steps, 2, "C14 ref-counted link collection cursor")
 		case 9: // one runtime symbol re-opened row after row (what a scan does), each time left standing on its first element
 			rt := env.emp.symDepts.GetRuntimeSymbol()
 			for i := range p.ids {
@@ -234,3 +255,4 @@ func VerifC14_IdIterationCursor()       { verifC14Store(6) }
 func VerifC14_StringListCursor()        { verifC14Store(7) }
 func VerifC14_SetSymbolRuntimeCursor()  { verifC14Store(8) }
 func VerifC14_SetSymbolReopenedCursor() { verifC14Store(9) }
+func VerifC14_RefCountedLinkCursor()    { verifC14Store(10) }
